@@ -155,9 +155,9 @@ impl RefState {
             Axpy(al) => ops::axpy(*al, &a[0], &a[1])?,
             Matmul { ta, tb, has_c } => ops::matmul(&a[0], *ta, &a[1], *tb, if *has_c { Some(&a[2]) } else { None })?,
             Conv { sr, sc } => ops::conv(&a[0], &a[1], *sr, *sc)?,
-            Relu => ops::relu(&a[0]),
-            Sigmoid => ops::sigmoid(&a[0]),
-            Softmax => ops::softmax(&a[0]),
+            Relu | ActRelu => ops::relu(&a[0]),
+            Sigmoid | ActSigmoid => ops::sigmoid(&a[0]),
+            Softmax | ActSoftmax => ops::softmax(&a[0]),
             CAdd => {
                 same(&a[0], &a[1])?;
                 ops::add(&a[0], &a[1])?
@@ -202,6 +202,9 @@ impl RefState {
 
     pub fn apply(&mut self, op: &OpKind, args: &[usize]) -> R<usize> {
         let h = self.apply_detached(op, args)?;
+        if op.consumes_operand() {
+            self.handles[args[0]] = None;
+        }
         self.handles.push(Some(h));
         Ok(self.handles.len() - 1)
     }
